@@ -52,6 +52,13 @@ def run(ck: Checker, prog: Program, tier: str):
     with ck.borrow(C01, "C17.R1+"):
         ck.guard(C01._r7, ck, prog)
     ck.guard(_settings_delivery, ck, prog)
+    # a density is reported at the frequency it was computed for: the container keeps both vectors as given
+    from .c15 import check_stored_as_given
+    ck.guard(check_stored_as_given, ck, prog, "C17.R2", ["Psd"], ("frequency", "amplitude"), "frequency / density pairs would be mismatched")
+    # "with the mean removed", tapered, filtered: the recording-level operations reach all three components on every path
+    from .common import check_componentwise
+    for name in ("detrend", "window", "butterworth_filter"):
+        ck.guard(check_componentwise, ck, prog, "C17.R4", name)
     # the density is divided by the sampling rate: 1/dt exactly (rule of C10)
     from . import c10
     with ck.borrow(c10, "C17.R1+"):
